@@ -208,7 +208,12 @@ func generatedClasses(r *Rng) map[string][]byte {
 			}
 			return ms
 		}
-		obj := map[string]any{"frame": "Builtin", "class": nm, "instance_methods": mk(), "class_methods": mk()}
+		cms := mk()
+		var newM meth
+		newM.Name, newM.Args = "new", []arg{}
+		newM.Ret.Type = []string{nm}
+		cms = append(cms, newM) // so that probe programs can make receivers of generated classes
+		obj := map[string]any{"frame": "Builtin", "class": nm, "instance_methods": mk(), "class_methods": cms}
 		if i > 0 && r.Chance(2, 3) {
 			obj["extends"] = []string{names[r.Intn(i)]}
 		}
